@@ -242,7 +242,9 @@ theorem appendBatch_prefix_ok (pre : List (LogId × Bytes)) :
   | cons e rest ih =>
     obtain ⟨id, p⟩ := e
     intro fsHas s seg effs seg' s' effs' h
-    unfold Store.appendBatch at h
+    by_cases hidxD12 : id.index + 1 = U64
+    · rw [appendBatch_cons_refused_D12 _ _ _ _ _ _ _ hidxD12] at h; cases h
+    rw [appendBatch_cons_small_D12 _ _ _ _ _ _ _ hidxD12] at h
     cases ha : s.appendAndApply fsHas (.append id p) with
     | mk res x =>
       obtain ⟨s1, e1⟩ := x
@@ -253,7 +255,7 @@ theorem appendBatch_prefix_ok (pre : List (LogId × Bytes)) :
         obtain ⟨fsHas', hf⟩ := ih _ s1 seg1 (effs ++ e1) seg' s' effs' h
         refine ⟨fsHas', fun post => ?_⟩
         rw [List.cons_append]
-        conv => lhs; unfold Store.appendBatch
+        rw [appendBatch_cons_small_D12 _ _ _ _ _ _ _ hidxD12]
         rw [ha]
         exact hf post
       | err k => simp only at h; cases h
@@ -265,16 +267,20 @@ theorem appendBatch_rejected_after (fsHas : Nat → Bool) (pre rest : List (LogI
     (id : LogId) (p : Bytes) (s s' : Store) (seg seg' : Seg) (effs effs' : List Eff) (k : ErrKind)
     (h : Store.appendBatch fsHas pre s seg effs = (.ok seg', s', effs'))
     (hk : s'.st.apply (.append id p) = .err k) :
-    Store.appendBatch fsHas (pre ++ (id, p) :: rest) s seg effs = (.err k, s', effs') := by
+    Store.appendBatch fsHas (pre ++ (id, p) :: rest) s seg effs =
+      (.err (if id.index + 1 = U64 then .invalidInput else k), s', effs') := by
   obtain ⟨fsHas', hf⟩ := appendBatch_prefix_ok pre fsHas s seg effs seg' s' effs' h
   rw [hf]
-  simp [Store.appendBatch, Store.appendAndApply, hk]
+  by_cases hidxD12 : id.index + 1 = U64
+  · rw [appendBatch_cons_refused_D12 _ _ _ _ _ _ _ hidxD12, if_pos hidxD12]
+  · simp [Store.appendBatch, Store.appendAndApply, hk, hidxD12]
 
 theorem call_append_rejected_after (fsHas : Nat → Bool) (pre rest : List (LogId × Bytes))
     (id : LogId) (p : Bytes) (s s' : Store) (seg' : Seg) (effs' : List Eff) (k : ErrKind)
     (h : s.call fsHas (.append pre) = (.ok seg', s', effs'))
     (hk : s'.st.apply (.append id p) = .err k) :
-    s.call fsHas (.append (pre ++ (id, p) :: rest)) = (.err k, s', effs') := by
+    s.call fsHas (.append (pre ++ (id, p) :: rest)) =
+      (.err (if id.index + 1 = U64 then .invalidInput else k), s', effs') := by
   simp only [Store.call] at h ⊢
   cases hl : lastSegment s.openOffsets with
   | none => rw [hl] at h; cases h
@@ -292,7 +298,8 @@ theorem Sys.call_append_rejected_after (y : Sys) (s s' : Store) (pre rest : List
     (hk : s'.st.apply (.append id p) = .err k) :
     (y.call (.append (pre ++ (id, p) :: rest))).2 = (y.call (.append pre)).2 ∧
     (y.call (.append (pre ++ (id, p) :: rest))).1 =
-      (if (applyEffs effs' y.fs y.worker []).1 then .err k else .err .sendFailed) := by
+      (if (applyEffs effs' y.fs y.worker []).1
+        then .err (if id.index + 1 = U64 then .invalidInput else k) else .err .sendFailed) := by
   have h2 := _root_.RaftLog.call_append_rejected_after y.fs.has pre rest id p s s' seg' effs' k h hk
   simp only [Sys.call, hs, h, h2]
   exact ⟨trivial, trivial⟩
@@ -395,7 +402,8 @@ theorem Abs.rejects_append1 {s : Store} {r : RefLog} (h : Abs s r) (fsHas : Nat 
 
 theorem Abs.rejects_append_single {s : Store} {r : RefLog} (h : Abs s r) (fsHas : Nat → Bool)
     (id : LogId) (p : Bytes) (k : ErrKind) (hr : r.call (.append [(id, p)]) = .error k) :
-    s.call fsHas (.append [(id, p)]) = (.err k, s, []) := by
+    s.call fsHas (.append [(id, p)]) =
+      (.err (if id.index + 1 = U64 then .invalidInput else k), s, []) := by
   have h1 : r.append1 id p = .error k := by
     simp only [RefLog.call, RefLog.appendAll] at hr
     split at hr
@@ -406,7 +414,9 @@ theorem Abs.rejects_append_single {s : Store} {r : RefLog} (h : Abs s r) (fsHas 
       exact hk'
   have h2 := h.rejects_append1 fsHas id p k h1
   obtain ⟨seg0, hseg⟩ := lastSegment_some h.pf.open2
-  simp [Store.call, hseg, Store.appendBatch, Store.appendAndApply, h2]
+  by_cases hidxD12 : id.index + 1 = U64
+  · simp [Store.call, hseg, Store.appendBatch, hidxD12]
+  · simp [Store.call, hseg, Store.appendBatch, Store.appendAndApply, h2, hidxD12]
 
 /-- Which ops journal a single record. -/
 def Op.single : Op → Prop
@@ -417,7 +427,7 @@ def Op.single : Op → Prop
 by the store with the same error kind, the store is returned unchanged and no
 effect is emitted. -/
 theorem Abs.rejects {s : Store} {r : RefLog} (h : Abs s r) (fsHas : Nat → Bool) (op : Op)
-    (hop : op.single) (k : ErrKind) (hr : r.call op = .error k) :
+    (hop : op.single) (hsm : op.small) (k : ErrKind) (hr : r.call op = .error k) :
     s.call fsHas op = (.err k, s, []) := by
   cases op with
   | saveVote v => exact h.rejects_vote fsHas v k hr
@@ -426,7 +436,35 @@ theorem Abs.rejects {s : Store} {r : RefLog} (h : Abs s r) (fsHas : Nat → Bool
   | append es =>
     obtain ⟨id, p, he⟩ := hop
     subst he
-    exact h.rejects_append_single fsHas id p k hr
+    have hidx : ¬ id.index + 1 = U64 := by
+      have : id.index + 1 < U64 := hsm (id, p) List.mem_cons_self
+      omega
+    have := h.rejects_append_single fsHas id p k hr
+    rwa [if_neg hidx] at this
+  | purge upto =>
+    simp only [RefLog.call] at hr
+    split at hr <;> cases hr
+  | saveUserData d => simp only [RefLog.call] at hr; cases hr
+
+/-- D12: without `small` the store still rejects (store unchanged, nothing
+emitted); only the error kind may be `InvalidInput` instead of the reference
+log's (an `append` whose id has index u64::MAX is refused up front). -/
+theorem Abs.rejects_any_D12 {s : Store} {r : RefLog} (h : Abs s r) (fsHas : Nat → Bool) (op : Op)
+    (hop : op.single) (k : ErrKind) (hr : r.call op = .error k) :
+    ∃ k', s.call fsHas op = (.err k', s, []) ∧ (op.small → k' = k) := by
+  cases op with
+  | saveVote v => exact ⟨k, h.rejects_vote fsHas v k hr, fun _ => rfl⟩
+  | commit id => exact ⟨k, h.rejects_commit fsHas id k hr, fun _ => rfl⟩
+  | truncate idx => exact ⟨k, h.rejects_truncate fsHas idx k hr, fun _ => rfl⟩
+  | append es =>
+    obtain ⟨id, p, he⟩ := hop
+    subst he
+    refine ⟨_, h.rejects_append_single fsHas id p k hr, ?_⟩
+    intro hsm
+    have hidx : ¬ id.index + 1 = U64 := by
+      have : id.index + 1 < U64 := hsm (id, p) List.mem_cons_self
+      omega
+    rw [if_neg hidx]
   | purge upto =>
     simp only [RefLog.call] at hr
     split at hr <;> cases hr
